@@ -201,6 +201,21 @@ def main():
                           impl=(lambda res=res: res), dec=lambda w: decode_result(w, j2text),
                           oracle=(lambda out, tu=text_units: ('segment raised ' + out[1]) if out[0] != 'ok' else gens.aligned(tu, out[1])),
                           nontrivial=lambda m: m[0] == 'raise' or any(' ' in u for u in m[1])))
+    # a large output of one run (several hundred parses of a non-ASCII text: more than 64 KiB of UTF-8 once
+    # uncompressed), read back by the wrapper
+    for kk in range(3 if ck.thorough else 1):
+        alpha = ['uː', 'dʒ', 'ʌ', 'ŋ', '日本', 'é']
+        text_units, _ = gens.random_text(rng, alpha, nutts=30, max_words=3)
+        res, runs, left, args = run_case(ck, bindir_real, text_units, None, 400 + 37 * kk, 1, 7 + kk, 1 + kk, 1 + kk, -200, None, 'Colloc0', 'large-output')
+        desc = {'text': gens.lines(text_units)[:3] + ['...'], 'args': args, 'family': 'large-output'}
+        if runs is None:
+            bad.append((desc, 'the raw output of a run could not be captured (result %r)' % (res,)))
+        else:
+            ck.count('large_output_bytes', sum(len(l.encode('utf8')) + 1 for r in runs for l in r))
+            cases.append(dict(op=1502, arg=[len(text_units), s2j(args), -200, [text2j(r) for r in runs]], site='ag.segment', desc=desc,
+                              impl=(lambda res=res: res), dec=lambda w: decode_result(w, j2text),
+                              oracle=(lambda out, tu=text_units: ('segment raised ' + out[1]) if out[0] != 'ok' else gens.aligned(tu, out[1])),
+                              nontrivial=lambda m: True))
     # the bundled grammars, each on texts it covers, with several runs / jobs and ignored parses
     gfiles = sorted(f for f in os.listdir(DATA_AG) if f.endswith('.lt')) if os.path.isdir(DATA_AG) else []
     for gi, gname in enumerate(gfiles):
